@@ -175,6 +175,10 @@ class HelpersMachine(Machine):
             if self.keyed:
                 keys = c["keys"]
                 present = list(self.model)
+                if rng.random() < c["p_fail"] * 0.4:
+                    # a row that cannot be a row at all (not iterable): must be refused whole
+                    return {"op": rng.choice(["append", "setitem"]), "key": rng.choice(keys),
+                            "values": 5, "malformed": True}
                 if r < 0.3 or n == 0:
                     return {"op": "append", "key": rng.choice(keys), "values": self._values(rng)}
                 if r < 0.45:
@@ -297,6 +301,13 @@ class HelpersMachine(Machine):
         k = op["op"]
         t, m = self.t, self.model
         if self.keyed:
+            if k in ("append", "setitem") and op.get("malformed"):
+                def f():
+                    if k == "append":
+                        t.append(op["key"], op["values"])
+                    else:
+                        t[op["key"]] = op["values"]
+                return self._expect(k + "_malformed", f, True)
             if k in ("append", "setitem"):
                 vals = op["values"][:len(self.fields)]
                 if len(vals) < len(self.fields):
@@ -592,7 +603,7 @@ class HelpersMachine(Machine):
     # ------------------------------------------------------------------ shrinking / docs
     @classmethod
     def simplify(cls, op):
-        if "values" in op:
+        if "values" in op and isinstance(op["values"], list):
             v = op["values"]
             simple = [0] * len(v)
             if v != simple:
